@@ -481,10 +481,41 @@ def run(ctx: Ctx):
             rule_h(ctx, env)
     rule_e(ctx)
     ffsp_wait_column(ctx)
+    in_process_flag_is_exact(ctx)
     rows_decided_per_instance(ctx)
     finished_selection_keeps_an_action(ctx)
     fjsp_file_operations_keep_their_machines(ctx)
     generated_instances_can_be_completed(ctx)
+
+
+def in_process_flag_is_exact(ctx: Ctx):
+    """C02.n the wait column of FJSP / JSSP (mask_no_ops=False) is `job_in_process.any() & ~done`: waiting is offered iff some
+    operation is running, and `_transit_to_next_time` can then always find a finite next event.  That needs the flag to be EXACT:
+    it is cleared for every job whose running operation has ended -- the clearing condition is `job_in_process & (finish_times[next_op]
+    <= time)` and nothing else.  Any further conjunct (e.g. `& ~job_finished`) leaves a completed job flagged for ever: waiting stays
+    offered with all machines idle and the step that takes it has no next event."""
+    from .C07 import as_store, FJ, TS
+    env = EnvA(ctx.repo, FJ, "FJSPEnv")
+    sl = env.slot("_transit_to_next_time")
+    ctx.fn(sl.fi)
+    st = as_store(sl.cell("job_in_process"))
+    ok, why = False, "job_in_process is not cleared by a masked store of False"
+    if st is not None and vg.is_const(st.args[2]) and not bool(st.args[2].args[0]):
+        leaves = nf.boolwalk(st.args[1], TS.BOOL_CELLS)
+        extra = []
+        n_rel = n_flag = 0
+        for l in leaves:
+            c = l.cmp()
+            if l.node.op == "cell0" and l.node.args[1] == "job_in_process" and l.sign > 0:
+                n_flag += 1
+            elif c is not None and {"finish_times", "time"} <= vg.cells_of(l.node) and c[1] in (">=0", ">0"):
+                n_rel += 1
+            else:
+                extra.append(vg.show(l.node, 3)[:60])
+        ok = n_flag >= 1 and n_rel >= 1 and not extra and all(l.conj for l in leaves)
+        why = f"cleared under job_in_process ({n_flag}) & finish_times[next_op] <= time ({n_rel})" + ("" if not extra else f" AND further conditions {extra}: a job that meets none of them keeps its flag after its operation has ended")
+    ctx.ob("C02.n", "FJSPEnv._transit:in-process-flag-cleared-for-every-ended-operation", ok, sl.where, why,
+           construct="FJSPEnv._transit_to_next_time:job_in_process:clear-condition")
 
 
 def generated_instances_can_be_completed(ctx: Ctx):
